@@ -106,9 +106,10 @@ Active(d, k) == Since(k) <= Rank(d) /\ Rank(d) <= Until(k)
 -----------------------------------------------------------------------------
 (* Results: status + the annotation sets needed by unevaluated*.           *)
 (*   st = "ok" | "bad" | "loop"  ("loop": the evaluation re-enters the     *)
-(*   same schema on the same instance through references - C 2019-09 7.1 / *)
-(*   8.2.4.? "A schema MUST NOT be run into an infinite loop"; behaviour   *)
-(*   undefined, such (schema, instance) pairs are don't-care)              *)
+(*   same schema on the same instance through references.  C d6/d7 8.3.1 / *)
+(*   2019-09 8.2.4.3 / 2020-12 9.4.1: "A schema MUST NOT be run into an    *)
+(*   infinite loop against an instance ... the behavior is undefined":     *)
+(*   such (schema, instance) pairs are don't-care and are never run)       *)
 (*   p  = instance member names evaluated by a successful (sub)schema      *)
 (*   i  = instance array positions (1-based) evaluated                     *)
 (* A failing schema contributes no annotations (C 2019-09 7.7.1.2:         *)
